@@ -1,6 +1,72 @@
-(* C05/Properties.v — the property theorems, nothing else. *)
-From MV Require Import Base.Prelude C05.Model C05.Proofs.
+(* C05/Properties.v — the property theorems, nothing else.
+   C05: the hand-written decoders of mithril-stm return a value or an error on every input
+   ([Crash] = panic, abort, arithmetic overflow in a checked build, capacity overflow, or fuel
+   exhausted), in checked and in wrapping builds, whatever blst answers on group elements; their
+   pre-allocations are linear in the input; honest encodings decode to the encoded value.
+   [small bs]: the input is shorter than 2^56 bytes. *)
+From MV Require Import Base.Prelude C05.Model C05.Proofs C05.Roundtrip.
 Open Scope N_scope.
 
+(* ---- totality (also: the loops never run out of their fuel = input length + 1) ---- *)
 Theorem C05_params_total : forall bs, p_params bs <> Crash.
 Proof. exact p_params_nc. Qed.
+Theorem C05_single_signature_total : forall md V bs, small bs -> p_ssig md V bs <> Crash.
+Proof. exact p_ssig_nc. Qed.
+Theorem C05_registration_entry_total : forall V bs, p_reg V bs <> Crash.
+Proof. exact p_reg_nc. Qed.
+Theorem C05_signature_registered_party_total : forall md V bs, small bs -> p_sigreg md V bs <> Crash.
+Proof. exact p_sigreg_nc. Qed.
+Theorem C05_batch_path_total : forall bs, small bs -> p_bpath bs <> Crash.
+Proof. exact p_bpath_nc. Qed.
+Theorem C05_batch_commitment_total : forall bs, p_bcommit bs <> Crash.
+Proof. exact p_bcommit_nc. Qed.
+Theorem C05_merkle_tree_total : forall md bs, small bs -> p_mtree md bs <> Crash.
+Proof. exact p_mtree_nc. Qed.
+Theorem C05_aggregate_key_total : forall bs, p_avk bs <> Crash.
+Proof. exact p_avk_nc. Qed.
+Theorem C05_concatenation_proof_total : forall md V bs, small bs -> p_cproof md V bs <> Crash.
+Proof. exact p_cproof_nc. Qed.
+Theorem C05_aggregate_signature_total : forall md V bs, small bs -> p_aggr md V bs <> Crash.
+Proof. exact p_aggr_nc. Qed.
+Theorem C05_initializer_total : forall V bs, p_init V bs <> Crash.
+Proof. exact p_init_nc. Qed.
+Theorem C05_group_elements_total : forall V bs,
+  p_sig V bs <> Crash /\ p_vk V bs <> Crash /\ p_sk V bs <> Crash /\ p_vkpop V bs <> Crash.
+Proof. intros; repeat split; [apply p_sig_nc|apply p_vk_nc|apply p_sk_nc|apply p_vkpop_nc]. Qed.
+
+(* ---- allocation: the two pre-allocations (elements * element size) are linear in the input ---- *)
+Theorem C05_concatenation_proof_alloc : forall bs total, cp_capacity bs total * SIGREG_SIZE <= 45 * len bs.
+Proof. exact cp_capacity_le. Qed.
+Theorem C05_merkle_tree_alloc : forall bs num_nodes, mt_capacity bs num_nodes * VEC_SIZE <= len bs.
+Proof. exact mt_capacity_le. Qed.
+
+(* ---- round trips ---- *)
+Theorem C05_hex_roundtrip : forall bs, bytes_ok bs -> hex_decode (hex_encode bs) = Some bs.
+Proof. exact hex_roundtrip. Qed.
+(* hex decoding is a total function into option; what it accepts has even length and two characters per byte *)
+Theorem C05_hex_decode_shape : forall cs b, hex_decode cs = Some b -> N.even (len cs) = true.
+Proof. exact hex_decode_even. Qed.
+Theorem C05_u64_roundtrip : forall n, n < U64 -> be64 (enc64 n) = n.
+Proof. exact be64_enc64. Qed.
+Theorem C05_params_roundtrip : forall p, params_ok p -> p_params_legacy (e_params p) = Val p.
+Proof. exact params_roundtrip. Qed.
+Theorem C05_registration_entry_roundtrip : forall V r, reg_ok V r -> p_reg_legacy V (e_reg r) = Val r.
+Proof. exact reg_roundtrip. Qed.
+Theorem C05_batch_commitment_roundtrip : forall c, bc_nr c < U64 -> p_bcommit_legacy (e_bcommit c) = Val c.
+Proof. exact bcommit_roundtrip. Qed.
+
+(* ---- non-vacuity: concrete encodings that decode, in both arithmetic modes ---- *)
+Example C05_ex_single_signature :
+  let sigma := repeat 200 48 in
+  let s := {| ss_indexes := [1; 4; 5; 8]; ss_sigma := sigma; ss_signer := 1 |} in
+  small (e_ssig s) /\
+  p_ssig Checked (mkV [(0, sigma)]) (e_ssig s) = Val s /\ p_ssig Wrapping (mkV [(0, sigma)]) (e_ssig s) = Val s /\
+  p_ssig Checked (mkV []) (e_ssig s) = Fail.
+Proof. vm_compute. repeat split; reflexivity. Qed.
+Example C05_ex_hex : hex_decode [52; 97; 70; 102] = Some [74; 255] /\ hex_decode [52; 97; 70] = None /\ hex_decode [52; 103] = None.
+Proof. vm_compute. repeat split. Qed.
+(* the 25-byte input of the finding (aggregate signature, count 2^64-1) is now an error *)
+Example C05_ex_witness :
+  p_aggr Checked (mkV []) (0 :: repeat 255 8 ++ repeat 0 16) = Fail /\
+  cp_capacity (repeat 255 8 ++ repeat 0 16) 18446744073709551615 = 3.
+Proof. vm_compute. repeat split. Qed.
